@@ -131,7 +131,8 @@ ValidateHolder(s, n, c, sig) ==
   IF s.phase = "stub" THEN Err(s)
   ELSE IF HolderCommitRefused(s, n, c) THEN Err(s)
   \* check_holder_tx_signatures (commitment + every HTLC): "badcommit" = signature made for other
-  \* content, "badhtlc" = wrong HTLC signature, "shorthtlc" = fewer HTLC signatures than HTLCs
+  \* content, "badhtlc" = wrong HTLC signature, "shorthtlc" = fewer HTLC signatures than HTLCs,
+  \* "replay" = the counterparty's valid signatures for the same content at number n - 1
   ELSE IF sig # "good" THEN Err(s)
   ELSE IF n = s.nh THEN Ok([s EXCEPT !.nextH = c])
   ELSE Ok(s)                              \* retry of current / look-ahead: accepted, no change
@@ -389,8 +390,10 @@ Requests(N, HC, CC, TT) ==
   \cup {[op |-> "CheckFutureSecret", n |-> n, good |-> b] : n \in {0, N}, b \in BOOLEAN}
   \cup {[op |-> "ValidateHolder", n |-> n, c |-> c, sig |-> sg] :
             n \in 0..N + 2, c \in HC, sg \in {"good", "badcommit", "badhtlc", "shorthtlc"}}
+  \cup {[op |-> "ValidateHolder", n |-> n, c |-> c, sig |-> "replay"] : n \in 1..N + 2, c \in HC}
   \cup {[op |-> "ValidateHolderRaw", n |-> n, c |-> c, sig |-> sg] :
             n \in 0..N + 2, c \in HC, sg \in {"good", "badcommit"}}
+  \cup {[op |-> "ValidateHolderRaw", n |-> n, c |-> c, sig |-> "replay"] : n \in 1..N + 2, c \in HC}
   \cup {[op |-> "Activate"]}
   \cup {[op |-> "Revoke", n |-> n] : n \in 0..N + 1}
   \cup {[op |-> "SignHolder", n |-> n] : n \in 0..N + 1}
@@ -428,6 +431,8 @@ HandlerRequests(N, HC, TT) ==
        {[op |-> op, v |-> v, n |-> n, c |-> c, sig |-> sg] :
             op \in {"HValidate", "HValidateRaw"},
             v \in {4, 5, 6}, n \in 0..N + 1, c \in HC, sg \in {"good", "badcommit"}}
+  \cup {[op |-> "HValidate", v |-> v, n |-> n, c |-> c, sig |-> "replay"] :
+            v \in {4, 5, 6}, n \in 1..N + 1, c \in HC}
   \* a commitment WITH an HTLC through the raw message (HTLC list, HTLC witness scripts in the PSBT,
   \* HTLC signatures), at the last explored numbers only: the content enlarges the state space
   \cup {[op |-> "HValidateRaw", v |-> v, n |-> n, c |-> "H", sig |-> sg] :
